@@ -49,14 +49,54 @@ def specs(tier):
 
 
 def shards(tier):
-    return [(i, sc) for i in range(len(specs(tier))) for sc in (0, 1)]
+    return [(i, sc) for i in range(len(specs(tier))) for sc in (0, 1)] + [('big', 0)]
 
 
 def bounds(tier):
     return {'rulesets': len(specs(tier)), 'all_lower': [False, True], 'N': 'every N in 1..total+1, stdout and -o file'}
 
 
+def run_big(acc):
+    """A word list longer than any plausible output buffer: 5 000 equally probable words + a second group."""
+    td = tree.scratch_tree()
+    spec = dict(D.TERMINALS[0])
+    spec['D'] = {4: [('%04d' % k, 1.0 / 5000) for k in range(5000)], 1: [('7', .6), ('8', .4)]}
+    spec.update(grammar=[('D1', 1.0)], prince=[('D4', .6), ('D1', .4)])
+    R.write_ruleset(os.path.join(td, 'Rules', 'v'), spec)
+    U = S.run_cli(td, 'prince_ling', ['-r', 'v'])
+    acc.evals += 1
+    case0 = {'spec_index': 'big', 'all_lower': 0}
+    want = ['%04d' % k for k in range(5000)] + ['7', '8']
+    if U.exc or Counter(U.stdout) != Counter(want):
+        acc.fail(case0, 'unbounded big list: %s, %d words, expected %d' % (U.exc, len(U.stdout), len(want)), 'language')
+        tree.rmtree(td)
+        return
+    for N in (None, 1, 4095, 4096, 4097, 4200, 5000, 5001, 5003):
+        outp = os.path.join(td, 'out.txt')
+        argv = ['-r', 'v', '-o', outp] + ([] if N is None else ['-s', str(N)])
+        r = S.run_cli(td, 'prince_ling', argv)
+        acc.evals += 1
+        acc.nontrivial += 1
+        case = dict(case0, N=N, mode='file')
+        if r.exc:
+            acc.fail(case, '-o with size %r raised %s' % (N, r.exc.strip().splitlines()[-1]), 'raise')
+            continue
+        with open(outp, encoding='utf-8') as f:
+            lines = f.read().split('\n')
+        if lines and lines[-1] == '':
+            lines.pop()
+        exp = U.stdout if N is None else U.stdout[:min(N, len(U.stdout))]
+        if lines != exp:
+            k = next((i for i, (a, b) in enumerate(zip(lines, exp)) if a != b), min(len(lines), len(exp)))
+            acc.fail(case, 'big list, --size %r: the -o file has %d lines, standard output gives %d; first difference at word #%d: file %r, stdout %r'
+                     % (N, len(lines), len(exp), k + 1, lines[k] if k < len(lines) else None, exp[k] if k < len(exp) else None), 'file-differs')
+    acc.sample({'prince_grammar': spec['prince'], 'words': len(want)}, cap=1)
+    tree.rmtree(td)
+
+
 def run_shard(shard, tier, acc):
+    if shard[0] == 'big':
+        return run_big(acc)
     i, sc = shard
     spec = specs(tier)[i]
     td = tree.scratch_tree()
@@ -129,7 +169,10 @@ def run_shard(shard, tier, acc):
 def replay(case):
     from ..runner import Acc
     acc = Acc()
-    run_shard((case['spec_index'], case['all_lower']), 'thorough', acc)
+    if case['spec_index'] == 'big':
+        run_big(acc)
+    else:
+        run_shard((case['spec_index'], case['all_lower']), 'thorough', acc)
     for f in acc.failures:
         if f['case'].get('N') == case.get('N') and f['case'].get('mode') == case.get('mode'):
             return f['msg']
